@@ -18,4 +18,19 @@ theorem C18_kernel_middle (pl pos size : Nat) :
       = (Torf.Reuse.pieceRange pl pos size).2 / 2 := by omega
   rw [h]
 
+/-- `is_file_match`: with the same name and the same (path, size) identity, the candidate is accepted exactly when
+    the code's window test on its piece size holds -/
+theorem C18_kernel_piece_size_window (t : Torf.Reuse.Tor) (c : Torf.Reuse.Cand) (tid cid : List (String × Nat))
+    (hn : t.name = c.name)
+    (ht : Torf.Reuse.filepathsAndSizes t.name t.single t.files = .ok tid)
+    (hc : Torf.Reuse.filepathsAndSizes c.name c.single c.files c.bytesPath = .ok cid)
+    (hp : tid.isPerm cid = true) :
+    Torf.Reuse.isFileMatch t c = .ok (reusePieceSizeOk t.plMin c.pieceLength t.plMax) := by
+  unfold Torf.Reuse.isFileMatch reusePieceSizeOk
+  simp only [hn, ne_eq, not_true_eq_false, if_false]
+  rw [hn] at ht
+  simp only [ht, hc, hp, if_true]
+  congr 1
+  by_cases h1 : t.plMin ≤ c.pieceLength <;> by_cases h2 : c.pieceLength ≤ t.plMax <;> simp [h1, h2] <;> omega
+
 end Torf.C18
